@@ -29,7 +29,12 @@ def main():
         d = json.load(open(a.path))
         pos, _ = _load(d["property"])
         po = next(p for p in pos if p.name == d["po"])
-        clause = d["failed_obligation"].split("/", 1)[1]
+        clause = d["failed_obligation"][len(d["po"]) + 1:]
+        if po.strength == "X":
+            out = po.fn({"shape": d["shape"], "tier": d.get("tier", "quick"), "seed": d.get("seed", 0), "replay": d["inputs"]})
+            bad = [k for k, r in out.items() if r.get("failures")]
+            print(json.dumps({"failed_obligation": d["failed_obligation"], "inputs": d["inputs"], "clause_false_natively": bool(bad), "clauses": bad}, indent=1, default=str))
+            sys.exit(1 if bad else 0)
         results, rejected, exc, S = run_native(po, d["shape"], d["inputs"])
         bad = [x for x in results if x[0] == clause and not x[1]]
         print(json.dumps({"failed_obligation": d["failed_obligation"], "inputs": d["inputs"], "clause_false_natively": bool(bad),
